@@ -63,6 +63,10 @@ func (e *Exec) modelSays(c *Term) (bool, bool) {
 }
 
 // query asks the solver for PC ∧ c, returning sat/unsat/unknown and a model.
+// An "unknown" (soft timeout, or the watchdog killed the process) is retried
+// once in a fresh solver context with a longer timeout: whether z3 finishes a
+// query in an incremental context depends on what the worker asked before, and
+// that depends on job scheduling; the same query from an empty context does not.
 func (e *Exec) query(c *Term) (string, Model) {
 	e.flush()
 	res, m := e.sol.CheckModel(c, e.pathVars)
@@ -73,12 +77,49 @@ func (e *Exec) query(c *Term) (string, Model) {
 	}
 	e.nQueries++
 	if res == "unknown" {
+		e.freshSolver()
+		e.sol.SetTimeout(3 * e.sol.BaseTimeout())
+		res, m = e.sol.CheckModel(c, e.pathVars)
+		e.nQueries++
+		e.W.noteRetry(res != "unknown")
+		if res == "unknown" {
+			// this context has seen an interrupted check-sat as well: replace it
+			e.freshSolver()
+		} else {
+			e.sol.SetTimeout(e.sol.BaseTimeout())
+			if e.sol.Lost {
+				e.sol.Lost = false
+				e.pendingV = append(e.pendingV[:0], e.pcV...)
+			}
+		}
+	}
+	if res == "unknown" {
 		e.nUnknown++
+	}
+	if res != "sat" {
+		m = nil
 	}
 	return res, m
 }
 
+// A nil model means "no model known for this path" (e.g. the feasibility of
+// the branch that leads here was unknown). It must stay nil across the job
+// queue: an empty non-nil model would make Eval fill in default values and
+// modelSays would answer from an assignment that need not satisfy the path
+// condition.
+// freshSolver starts a new solver process and re-asserts the path condition.
+func (e *Exec) freshSolver() {
+	e.sol.Fresh()
+	e.sol.Lost = false
+	e.sol.Push() // the path scope runPath pops at the end
+	e.pendingV = append(e.pendingV[:0], e.pcV...)
+	e.flush()
+}
+
 func (e *Exec) exportModel(m Model) map[string]modelVal {
+	if m == nil {
+		return nil
+	}
 	out := make(map[string]modelVal, len(m))
 	for k, v := range m {
 		out[k] = modelVal{S: v.S, I: v.I, B: v.B, F: v.F}
@@ -87,7 +128,7 @@ func (e *Exec) exportModel(m Model) map[string]modelVal {
 }
 
 func (e *Exec) importModel(m map[string]modelVal) Model {
-	if m == nil {
+	if len(m) == 0 {
 		return nil
 	}
 	out := make(Model, len(m))
@@ -331,6 +372,7 @@ type Summary struct {
 	Wall                                                time.Duration
 	InconclusiveWhy                                     map[string]int
 	Truncated                                           bool
+	Retries, RetriesResolved                            int
 	CrossChecked                                        int
 	CrossDisagree                                       int
 }
@@ -379,7 +421,9 @@ func (w *World) Explore() *Summary {
 	sum := &Summary{Known: map[string]int{}, Reached: map[string]int{}, Msgs: map[string]int{},
 		Stubs: map[string]bool{}, Encoded: map[string]bool{}, InconclusiveWhy: map[string]int{}}
 	t0 := time.Now()
-	w.queue = []*job{{}}
+	w.queue = []*job{{prefix: w.Opts.StartPrefix}}
+	w.retries.Store(0)
+	w.retriesResolved.Store(0)
 	w.active = 0
 	w.stop = false
 	var mu sync.Mutex
@@ -440,6 +484,7 @@ func (w *World) Explore() *Summary {
 	}
 	wg.Wait()
 	sum.Wall = time.Since(t0)
+	sum.Retries, sum.RetriesResolved = int(w.retries.Load()), int(w.retriesResolved.Load())
 	return sum
 }
 
@@ -593,11 +638,10 @@ func (e *Exec) check(cond *Term, msg, kind string) {
 	// violated?
 	var res string
 	var m Model
-	if v, ok := e.modelSays(neg); ok && v && !e.replaying() {
-		res, m = "sat", e.model
-	} else {
-		res, m = e.query(neg)
-	}
+	// The current model is only a hint for which side to ask first; a violation
+	// is reported on the solver's own sat answer for PC ∧ ¬cond, never on the
+	// cached model alone.
+	res, m = e.query(neg)
 	switch res {
 	case "unsat":
 		e.path.Discharged++
